@@ -554,8 +554,8 @@ func checkC27(r *fw.Run) {
 	dir := fw.WorkDir("c27")
 	defer os.RemoveAll(dir)
 	t0 := time.Now()
-	nA := r.Pick(1000, 25000)
-	nHist := r.Pick(200, 4000)
+	nA := r.Pick(1000, 20000)
+	nHist := r.Pick(200, 3000)
 	baseSeed := r.Rng("partA").Int63()
 	histSeed := r.Rng("history").Int63()
 	fname := func(rng *rand.Rand, mode string, id string) string {
@@ -872,7 +872,7 @@ func c27BuildAndCheck(r *fw.Run, files []c27FileSpec, rng *rand.Rand, only *c27B
 
 func c27PartB(r *fw.Run) {
 	rng := r.Rng("partB")
-	n := r.Pick(4000, 100000)
+	n := r.Pick(4000, 80000)
 	for c := 0; c < n; c++ {
 		nf := 1 + rng.Intn(8)
 		files := make([]c27FileSpec, nf)
